@@ -92,7 +92,19 @@ pub fn gen_convert(rng: &mut Rng, pool: &Pool, mask: GenMask) -> RunSpec {
         text = rng.pick(gen::HOSTILE).to_string();
     }
     text = text.replace('\0', "");
-    if rng.chance(1, 25) {
+    if rng.chance(1, 250) {
+        // very large inputs (cheap to convert: blank lines, the drawing at the very
+        // end): whatever limit or chunking there is must not cut them silently
+        let mib = *rng.pick(&[1usize, 2, 4, 8, 16]);
+        let size = mib * 1024 * 1024 + *rng.pick(&[0usize, 1, 4096]);
+        let tail = text.clone();
+        let mut big = String::with_capacity(size + tail.len() + 2);
+        while big.len() < size {
+            big.push('\n');
+        }
+        big.push_str(&tail);
+        text = big;
+    } else if rng.chance(1, 25) {
         // sit exactly on (or next to) a buffer boundary
         let base = *rng.pick(&[8192usize, 16384, 32768, 65536]);
         let size = (base as i64 + *rng.pick(&[-1i64, 0, 1])) as usize;
@@ -192,6 +204,8 @@ pub fn gen_convert(rng: &mut Rng, pool: &Pool, mask: GenMask) -> RunSpec {
                 dirs.push(name.clone());
                 name
             }
+            18 if rng.chance(1, 2) => "/dev/null".to_string(),
+            18 => "/dev/stdout".to_string(),
             17 => match &input {
                 InputSel::File(p) if files.iter().any(|f| &f.0 == p) => p.clone(),
                 _ => name,
